@@ -177,7 +177,28 @@ def trigger(w, op, flow=None):
         if i is None:
             return False
         w.step(('due', who, i, 'rekey_ike'))
+    elif op.startswith('movedDpd'):
+        # a liveness check whose datagram reaches the peer from another source address (a multihomed or translated peer);
+        # the answer goes there and reaches the asker all the same
+        i = est_index(ep, False, last)
+        if i is None:
+            return False
+        w.step(('due', who, i, 'dpd'))
+        reqs = [d for d in w.net if d.sender == who]
+        if len(reqs) != 1:
+            return False
+        d = reqs[0]
+        w.step(('drop', d.id))
+        other = 'B' if who == 'A' else 'A'
+        w.step(('inject', other, d.data, MOVED_SRC[':' in d.src], d.dst))
+        for x in list(w.net):
+            if x.sender == other and x.dst == MOVED_SRC[':' in d.src]:
+                w.step(('drop', x.id))
+                w.step(('inject', who, x.data, x.src, d.src))
     return True
+
+
+MOVED_SRC = {False: '192.168.0.77', True: '2001:db8::77'}
 
 
 def do_op(w, op, flow=None):
@@ -323,6 +344,14 @@ def cases():
         c['B']['conn_b2a'] = S.conn(B2, S.IP_A, "bob@openikev2", "alice@openikev2", "testing2", "testing", [S.entry(9, **wide)])
         out.append(dict(label='two-local-addresses:%s' % mode, confs=c, addrs={'A': [S.IP_A], 'B': [S.IP_B, B2]},
                         ops=('newA', 'rekeyChildB')))
+    # (b'') one authentic request reaches the peer from another source address; the SAs negotiated afterwards are still
+    # between the configured addresses on both ends
+    for who in 'AB':
+        o = 'B' if who == 'A' else 'A'
+        for rest in (('rekeyChild' + who, 'new' + who), ('rekeyChild' + o, 'new' + o), ('rekeyIke' + who, 'rekeyChild' + o),
+                     ('rekeyIke' + o, 'new' + who)):
+            out.append(dict(label='resourced-request:%s:%s' % (who, '.'.join(rest)), confs=S.base_confs(),
+                            ops=('movedDpd' + who,) + rest))
     # (c) histories: every sequence of operations up to length k, three ways of starting
     k = 2 if ck.quick else 3
     ke = dict(a_over={'dh': ['20', '19']}, b_over={'dh': ['19', '20']}, a_entry={'dh': ['20', '19']}, b_entry={'dh': ['19', '20']})
